@@ -155,7 +155,15 @@ class _BaseLayout(MaildirLayout[_MaildirT], metaclass=ABCMeta):
     def _split(cls, name: str, delimiter: str) -> _Parts:
         if name == 'INBOX':
             return []
-        return name.split(delimiter)
+        parts = name.split(delimiter)
+        for part in parts:
+            # The parts become path components below the user's maildir. An
+            # empty, '.' or '..' part, or one holding a path separator or NUL,
+            # would resolve outside of it (or to the maildir itself).
+            if part in ('', '.', '..') or os.sep in part or '\0' in part \
+                    or (os.altsep is not None and os.altsep in part):
+                raise FileNotFoundError(name)
+        return parts
 
     @classmethod
     def _join(cls, parts: _Parts, delimiter: str) -> str:
